@@ -189,7 +189,7 @@ var advChoices = []time.Duration{0, 0, 0, 1, time.Second / 9, time.Second / 9, t
 
 func thRandomConfig(rng *vRNG) thConfig {
 	c := thConfig{BucketSecs: rng.PickInt(1, 2, 5, 10, 60), MinSecs: rng.PickInt(1, 2, 5, 15, 20), FPS: rng.PickInt(1, 2, 3, 9)}
-	c.Refill = []time.Duration{time.Second, 2 * time.Second, 10 * time.Second, time.Minute, 10 * time.Minute, time.Hour}[rng.Intn(6)]
+	c.Refill = []time.Duration{time.Second, 2 * time.Second, 10 * time.Second, time.Minute, 10 * time.Minute, time.Hour, 1500 * time.Millisecond, 2500 * time.Millisecond, 19800 * time.Millisecond, 700 * time.Millisecond}[rng.Intn(10)]
 	if rng.Chance(15) {
 		c = thConfig{BucketSecs: 600, Refill: 10 * time.Minute, MinSecs: 15, FPS: 9} // shipped defaults
 	}
